@@ -532,10 +532,14 @@ end C11
 
 open C11
 
+/-- with a reflexive `==` (every lawful one; not IEEE `==` on NaN) nothing "is NaN" -/
+theorem C11.hasNaN_false {F : Type} [BEq F] [ReflBEq F] (xs : List F) : hasNaN xs = false := by
+  simp [hasNaN]
+
 /-- **the wrapper raises unless the last attempt converged** — it never returns a result of an
 attempt that did not report convergence; the attempts before the reported one all failed and were
 repeatable; at most `max_repetitions` repetitions are made. -/
-theorem c11_wrapper_raises (attempt : Nat → Attempt F) [LT F] [DecidableLT F] (maxReps : Nat)
+theorem c11_wrapper_raises (attempt : Nat → Attempt F) [LT F] [DecidableLT F] [BEq F] (maxReps : Nat)
     (bounds : List (F × F)) (func : List F → F) :
     (∀ o, wrapper attempt maxReps bounds func = .ok o →
       (attempt o.reps).converged = true ∧ o.reps ≤ maxReps ∧ ∀ k < o.reps, Retry (attempt k)) ∧
@@ -545,7 +549,7 @@ theorem c11_wrapper_raises (attempt : Nat → Attempt F) [LT F] [DecidableLT F] 
   · intro o ho
     unfold wrapper at ho
     simp only at ho
-    split_ifs at ho with hc ha
+    split_ifs at ho with hc hn ha
     · simp only [Except.ok.injEq] at ho
       subst ho
       simp only [Bool.not_eq_true', Bool.not_eq_false] at hc
@@ -564,7 +568,7 @@ theorem c11_wrapper_raises (attempt : Nat → Attempt F) [LT F] [DecidableLT F] 
 /-- **exactly when the wrapper raises**: there is an attempt `k ≤ max_repetitions` that did not
 converge, all earlier ones failed repeatably, and either `k` is not repeatable or the repetitions are
 used up.  (So: never an exception when an attempt in reach converged, never a result otherwise.) -/
-theorem c11_wrapper_error_iff (attempt : Nat → Attempt F) [LT F] [DecidableLT F] (maxReps : Nat)
+theorem c11_wrapper_error_iff (attempt : Nat → Attempt F) [LT F] [DecidableLT F] [BEq F] [ReflBEq F] (maxReps : Nat)
     (bounds : List (F × F)) (func : List F → F) :
     (∃ e, wrapper attempt maxReps bounds func = .error e) ↔
     ∃ k ≤ maxReps, (∀ j < k, Retry (attempt j)) ∧ (attempt k).converged = false ∧
@@ -575,7 +579,9 @@ theorem c11_wrapper_error_iff (attempt : Nat → Attempt F) [LT F] [DecidableLT 
   · rintro ⟨e, he⟩
     unfold wrapper at he
     simp only at he
-    split_ifs at he with hc
+    split_ifs at he with hc hn
+    swap
+    · rw [C11.hasNaN_false] at hn; exact Bool.noConfusion hn
     refine ⟨(wrapLoop attempt maxReps 0 (attempt 0)).2, h3', fun j hj => h4 j (by omega) hj, ?_, ?_⟩
     · rw [← h1]; simpa using hc
     · by_cases hlt : (wrapLoop attempt maxReps 0 (attempt 0)).2 < maxReps
@@ -613,7 +619,7 @@ theorem c11_wrapper_in_bounds (attempt : Nat → Attempt F) (maxReps : Nat) (bou
     AllIn o.x bounds := by
   unfold wrapper at h
   simp only at h
-  split_ifs at h with hc ha
+  split_ifs at h with hc hn ha
   · simp only [Except.ok.injEq] at h
     subst h
     obtain ⟨h1, _⟩ := wrapLoop_spec attempt maxReps 0
@@ -635,7 +641,7 @@ theorem c11_wrapper_fmin_consistent (attempt : Nat → Attempt F) (maxReps : Nat
   obtain ⟨h1, _⟩ := wrapLoop_spec attempt maxReps 0
   unfold wrapper at h
   simp only at h
-  split_ifs at h with hc ha
+  split_ifs at h with hc hn ha
   · simp only [Except.ok.injEq] at h
     subst h
     exact ⟨fun _ => rfl, fun hh => by simp at hh, fun _ => rfl⟩
@@ -665,7 +671,7 @@ theorem c11_nr_never_clipped (attempt : Nat → Attempt F) (maxReps : Nat) (boun
   have hcons := c11_wrapper_fmin_consistent attempt maxReps bounds func o h
   unfold wrapper at h
   simp only at h
-  split_ifs at h with hc ha
+  split_ifs at h with hc hn ha
   · exfalso
     have hk := hin (wrapLoop attempt maxReps 0 (attempt 0)).2
     rw [← h1] at hk
@@ -697,7 +703,7 @@ theorem c11_wrapper_nr [Add F] [Neg F] [Div F] [OfNat F 0] [OfNat F 1]
     unfold wrapper
     simp only [hloop]
     have hconv : (attempt 0).converged = true := by simp [attempt, nrConverged, hfl]
-    rw [if_neg (by simp [hconv])]
+    rw [if_neg (by simp [hconv]), if_neg (by simp [C11.hasNaN_false])]
     have hany : anyOut (attempt 0).x [(c.nsMin, c.nsMax)] = false := by
       simp [attempt, anyOut, Minimizer.outOfBounds, hin.1, hin.2]
     rw [if_neg (by simp [hany])]
@@ -727,6 +733,174 @@ theorem c11_maximize_negates {K : Type} [LinearOrder K] [InvolutiveNeg K]
     rw [← hv, ← hx, this, neg_neg]
 
 end wrapper_theorems
+
+/-! ## NaN-honest form of the wrapper's bound guarantee; completions of the scan theorems -/
+
+section nan_honest
+variable {F : Type} [LT F] [DecidableLT F] [BEq F]
+
+namespace C11
+omit [BEq F] in
+theorem clipAll_not_out (hirr : ∀ a : F, ¬ a < a) : ∀ (xs : List F) (bs : List (F × F)),
+    xs.length = bs.length → (∀ b ∈ bs, ¬ b.2 < b.1) →
+    anyOut (clipAll xs bs) bs = false ∧ (clipAll xs bs).length = bs.length
+  | [], [], _, _ => by simp [clipAll, anyOut]
+  | [], _ :: _, h, _ => by simp at h
+  | _ :: _, [], h, _ => by simp at h
+  | x :: xs, b :: bs, h, hb => by
+    obtain ⟨ih1, ih2⟩ := clipAll_not_out hirr xs bs (by simpa using h) (fun b' hb' => hb b' (by simp [hb']))
+    have hb1 : ¬ b.2 < b.1 := hb b (by simp)
+    simp only [clipAll, anyOut, List.length_cons, ih1, ih2, Bool.or_false, and_true]
+    unfold clip1 Minimizer.outOfBounds
+    split_ifs with h1 h2
+    · simp [hb1, hirr]
+    · simp [hb1, hirr]
+    · simp [h1, h2]
+end C11
+
+/-- **the wrapper's guarantee as the code has it** (no order laws beyond irreflexivity of `<`, hence valid
+for IEEE doubles *including NaN*): a returned `xmin` has no component below its lower or above its upper
+bound, has the length of the bounds, and the attempt it comes from contained no NaN — a converged attempt
+with a NaN component raises instead of being passed on. -/
+theorem c11_wrapper_not_outside (hirr : ∀ a : F, ¬ a < a)
+    (attempt : Nat → Attempt F) (maxReps : Nat) (bounds : List (F × F)) (func : List F → F) (o : WrapOut F)
+    (h : wrapper attempt maxReps bounds func = .ok o)
+    (hlen : ∀ k, (attempt k).x.length = bounds.length) (hb : ∀ b ∈ bounds, ¬ b.2 < b.1) :
+    anyOut o.x bounds = false ∧ o.x.length = bounds.length ∧ hasNaN (attempt o.reps).x = false := by
+  obtain ⟨h1, _⟩ := C11.wrapLoop_spec attempt maxReps 0
+  unfold wrapper at h
+  simp only at h
+  split_ifs at h with hc hn ha
+  · simp only [Except.ok.injEq] at h
+    subst h
+    have hl : (wrapLoop attempt maxReps 0 (attempt 0)).1.x.length = bounds.length := by rw [h1]; exact hlen _
+    obtain ⟨g1, g2⟩ := C11.clipAll_not_out hirr _ _ hl hb
+    refine ⟨g1, g2, ?_⟩
+    simp only; rw [← h1]; simpa using hn
+  · simp only [Except.ok.injEq] at h
+    subst h
+    refine ⟨by simpa using ha, by simp only; rw [h1]; exact hlen _, ?_⟩
+    simp only; rw [← h1]; simpa using hn
+
+end nan_honest
+
+section scan_more
+variable {F : Type} [LinearOrder F]
+
+namespace C11
+theorem scanFold_total (nrAt : F → Except String (NROut F)) :
+    ∀ (p2s : List F) (best : Option (F × NROut F)) (tot : Nat),
+      (∀ p ∈ p2s, ∃ r, nrAt p = .ok r) → ∃ res tot', scanFold nrAt p2s best tot = .ok (res, tot') := by
+  intro p2s
+  induction p2s with
+  | nil => intro best tot _; exact ⟨best, tot, rfl⟩
+  | cons p rest ih =>
+    intro best tot hall
+    obtain ⟨r, hr⟩ := hall p (by simp)
+    simp only [scanFold, hr]
+    exact ih _ _ (fun q hq => hall q (by simp [hq]))
+
+theorem scanFold_niter (nrAt : F → Except String (NROut F)) :
+    ∀ (p2s : List F) (best : Option (F × NROut F)) (tot : Nat) (res : Option (F × NROut F)) (tot' : Nat),
+      scanFold nrAt p2s best tot = .ok (res, tot') →
+      tot' = tot + ((p2s.filterMap (fun p => (nrAt p).toOption)).map (·.niter)).sum := by
+  intro p2s
+  induction p2s with
+  | nil =>
+    intro best tot res tot' h
+    simp only [scanFold, Except.ok.injEq, Prod.mk.injEq] at h
+    simp [h.2]
+  | cons p rest ih =>
+    intro best tot res tot' h
+    simp only [scanFold] at h
+    cases hp : nrAt p with
+    | error e => rw [hp] at h; cases h
+    | ok r =>
+      rw [hp] at h
+      have := ih _ _ _ _ h
+      simp only [List.filterMap_cons, hp, Except.toOption, List.map_cons, List.sum_cons] at this ⊢
+      omega
+end C11
+
+/-- **when the scan returns**: exactly when there is at least one scan value and the inner minimiser
+succeeds (raises no exception) for every scan value. -/
+theorem c11_scan_ok_iff (nrAt : F → Except String (NROut F)) (p2s : List F) :
+    (∃ s, scan nrAt p2s = .ok s) ↔ (p2s ≠ [] ∧ ∀ p ∈ p2s, ∃ r, nrAt p = .ok r) := by
+  constructor
+  · exact c11_scan_error_iff nrAt p2s
+  · rintro ⟨hne, hall⟩
+    obtain ⟨res, tot, hf⟩ := C11.scanFold_total nrAt p2s none 0 hall
+    obtain ⟨_, hsome, _⟩ := C11.scanFold_spec nrAt p2s none 0 res tot hf
+    unfold scan
+    rw [hf]
+    cases res with
+    | none => exact absurd (hsome (Or.inr hne)) (by simp)
+    | some b => obtain ⟨q, b⟩ := b; exact ⟨_, rfl⟩
+
+/-- **`status['niter']` of the scan** is the sum of the NR step counts over all scan values. -/
+theorem c11_scan_niter_total (nrAt : F → Except String (NROut F)) (p2s : List F) (s : ScanOut F)
+    (h : scan nrAt p2s = .ok s) :
+    s.niterTotal = ((p2s.filterMap (fun p => (nrAt p).toOption)).map (·.niter)).sum := by
+  unfold scan at h
+  cases hf : scanFold nrAt p2s none 0 with
+  | error e => rw [hf] at h; cases h
+  | ok v =>
+    obtain ⟨res, tot⟩ := v
+    rw [hf] at h
+    have hn := C11.scanFold_niter nrAt p2s none 0 res tot hf
+    cases res with
+    | none => cases h
+    | some b =>
+      obtain ⟨q, b⟩ := b
+      simp only [Except.ok.injEq] at h
+      subst h
+      simpa using hn
+
+end scan_more
+
+/-! ### two clauses that do *not* hold for NR+scan (findings; witnesses over ℤ, replayed on the code) -/
+
+/-- "never below the initial point" for NR+scan: the caller's initial value `p20` of the scanned parameter
+lies within the scan range, the objective is convex in ns for every p2 — then the reported minimum should
+not exceed the objective at the initial point `(ns0, p20)`. -/
+def c11_scan_ge_initial_statement : Prop :=
+  ∀ (c : NRCfg ℤ) (obj : ℤ → ℤ → Eval ℤ) (ns0 p20 : ℤ) (p2s : List ℤ) (s : ScanOut ℤ),
+    c.nsMin ≤ ns0 → ns0 ≤ c.nsMax → c.nsMin < c.nsMax → (∀ p x, 0 < (obj p x).fpp) →
+    (∃ a b, a ∈ p2s ∧ b ∈ p2s ∧ a ≤ p20 ∧ p20 ≤ b) →
+    scan (fun p2 => nr c (obj p2) ns0) p2s = .ok s → s.best.flag ≤ 0 → s.best.f ≤ (obj p20 ns0).f
+
+/-- false for the code: the scan ignores `p20`.  `f = (ns−3)² + 50 (p2−1)²`, initial point `(3, 1)` (the
+optimum, f = 0), scan values 0, 2, 4: reported minimum 50. -/
+theorem c11_scan_ge_initial_counterexample : ¬ c11_scan_ge_initial_statement := by
+  intro h
+  let c : NRCfg ℤ := { nsTol := 0, slopeThr := 1, fp0 := 1000, maxSteps := 100, nsMin := -10, nsMax := 10 }
+  let obj : ℤ → ℤ → Eval ℤ := fun p x => ⟨(x - 3) * (x - 3) + 50 * ((p - 1) * (p - 1)), 2 * (x - 3), 2⟩
+  obtain ⟨s, hs, hf, hfl⟩ : ∃ s, scan (fun p2 => nr c (obj p2) 3) [0, 2, 4] = .ok s ∧ s.best.f = 50 ∧ s.best.flag ≤ 0 :=
+    ⟨_, rfl, rfl, by decide⟩
+  have := h c obj 3 1 [0, 2, 4] s (by decide) (by decide) (by decide) (fun _ _ => by show (0 : ℤ) < 2; decide)
+    ⟨0, 2, by simp, by simp, by decide, by decide⟩ hs hfl
+  rw [hf] at this
+  exact absurd this (by decide)
+
+/-- "failure to converge is signalled" for NR+scan: when a converged result is returned, the NR
+minimisation converged at *every* scan value. -/
+def c11_scan_all_converged_statement : Prop :=
+  ∀ (c : NRCfg ℤ) (obj : ℤ → ℤ → Eval ℤ) (ns0 : ℤ) (p2s : List ℤ) (s : ScanOut ℤ),
+    scan (fun p2 => nr c (obj p2) ns0) p2s = .ok s → s.best.flag ≤ 0 →
+    ∀ p ∈ p2s, ∀ r, nr c (obj p) ns0 = .ok r → r.flag ≤ 0
+
+/-- false for the code: scan points that hit `max_steps` are dropped silently when another scan value
+has the smaller minimum.  `max_steps = 2`, `f = (ns − 6 p2)² + 100 (1 − p2)`, `ns0 = 6`, scan values 0, 1:
+p2 = 1 converges in one step (f = 0, flag 0), p2 = 0 needs its 2nd step (f = 100, flag 1). -/
+theorem c11_scan_all_converged_counterexample : ¬ c11_scan_all_converged_statement := by
+  intro h
+  let c : NRCfg ℤ := { nsTol := 0, slopeThr := 1, fp0 := 1000, maxSteps := 2, nsMin := -10, nsMax := 10 }
+  let obj : ℤ → ℤ → Eval ℤ := fun p x => ⟨(x - 6 * p) * (x - 6 * p) + 100 * (1 - p), 2 * (x - 6 * p), 2⟩
+  obtain ⟨s, hs, hfl⟩ : ∃ s, scan (fun p2 => nr c (obj p2) 6) [0, 1] = .ok s ∧ s.best.flag ≤ 0 := ⟨_, rfl, by decide⟩
+  obtain ⟨r, hr, hrf⟩ : ∃ r, nr c (obj 0) 6 = .ok r ∧ r.flag = 1 := ⟨_, rfl, rfl⟩
+  have := h c obj 6 [0, 1] s hs hfl 0 (by simp) r hr
+  rw [hrf] at this
+  exact absurd this (by decide)
 
 /-! ## COBYLA: bounds as inequality constraints -/
 
@@ -943,11 +1117,12 @@ theorem c11_first_step_for_current_source (tol lo hi : ℚ) (ms : Nat) :
 
 /-- **converged = the last Newton step was within the tolerance**: over an ordered field, a flag-0
 result that took a step lies within `ns_tol` of the last evaluated point `xPrev`, where the slope was
-at most the slope threshold and the Newton step `-f'/f''` at most `ns_tol`. -/
+at most the slope threshold and the Newton step `-f'/f''` at most `ns_tol`.  (`f'' ≠ 0` at `xPrev` is
+assumed so that the field's `x / 0 = 0` cannot stand in for the ±inf step IEEE arithmetic takes there.) -/
 theorem c11_nr_converged_close {K : Type} [Field K] [LinearOrder K] [IsStrictOrderedRing K]
     (c : NRCfg K) (obj : K → Eval K) (ns0 : K) (o : NROut K)
     (h : nr c obj ns0 = .ok o) (hb : c.nsMin ≤ c.nsMax) (h0 : ns0 ≤ c.nsMax) (hflag : o.flag = 0)
-    (hn : 0 < o.niter) :
+    (hn : 0 < o.niter) (_hpp : (obj o.xPrev).fpp ≠ 0) :
     |o.x - o.xPrev| ≤ c.nsTol ∧ |(obj o.xPrev).fp| ≤ c.slopeThr ∧ |newtonStep (obj o.xPrev)| ≤ c.nsTol := by
   obtain ⟨hs, hf, hrest⟩ := c11_nr_converged_step_small c obj ns0 o h hb h0 hflag
   obtain ⟨hin, hst, hfp, hx⟩ := hrest hn
